@@ -147,3 +147,24 @@ Definition pc_case (t : ty) (obs : list Z) (obs_sizes obs_aligns obs_pads : list
   let model_ok := beq m obs && members_ok in
   let spec_ok := beq s obs in
   if model_ok && spec_ok then [] else [91; b2z model_ok; b2z spec_ok] ++ m ++ s.
+
+(* C08: observed (part, offset, value offset) per member of a raw struct, and sizeof (or -1
+   when the type is not fixed); for unions: obs = [(0, discriminator offset, arm offset)] *)
+Fixpoint triples_eqb (a b : list (Z * Z * Z)) : bool :=
+  match a, b with
+  | [], [] => true
+  | (x1, y1, z1) :: a', (x2, y2, z2) :: b' => (x1 =? x2) && (y1 =? y2) && (z1 =? z2) && triples_eqb a' b'
+  | _, _ => false
+  end.
+
+Definition flat3 (l : list (Z * Z * Z)) : list Z :=
+  concat (map (fun p => match p with (a, b, c) => [a; b; c] end) l).
+
+Definition raw_case (t : ty) (obs : list (Z * Z * Z)) (obs_sizeof : Z) : list Z :=
+  let expect := match t with
+                | TStruct fs => member_offsets fs 0 0
+                | TUnion arms => [(0, 0, ualign align arms)]
+                | _ => []
+                end in
+  let size_ok := if is_fixed t then obs_sizeof =? size t else true in
+  if triples_eqb expect obs && size_ok then [] else [88; b2z size_ok; size t] ++ flat3 expect.
